@@ -20,7 +20,7 @@ def reject_result(res):
     return {"discard": "crashed", "message": res.message, "classes": ["crash:" + res.exc_type]}
 
 
-def compare_named_outputs(prog, circ, ref_env, names, label=""):
+def compare_named_outputs(prog, circ, ref_env, names, label="", check_type=True):
     """Compare every named output with the reference. Returns (failures, n_checked, unobservable)."""
     fails, checked, unobs = [], 0, []
     decls = {s.name: s for s in prog.stmts if isinstance(s, lang.Decl)}
@@ -41,7 +41,7 @@ def compare_named_outputs(prog, circ, ref_env, names, label=""):
         adv, net, how = o
         if isinstance(want, lang.SigV):
             checked += 1
-            if lang.known_type(want.ty):
+            if lang.known_type(want.ty) and (check_type or adv in ("bundle", None) or (adv or "").startswith("signal-e")):
                 sig = want.ty
                 if adv not in (sig, "bundle", None) and not (adv or "").startswith("signal-e"):
                     fails.append({"sig": f"type:{how}:{shape(name)}", "detail": {"name": name, "want_type": sig, "advertised": adv, "label": label}})
